@@ -23,7 +23,7 @@ def rowPvals (distr : List (List Rat)) (plus1 : Bool) (clip : Bool) : List (List
 inductive Res (α : Type) where
   | ok : α → Res α
   | valueError : Res α
-  deriving Repr
+  deriving Repr, DecidableEq
 
 /-- npc.py:93-116 -/
 def checkMonotonic (pvalues : List Rat) (combine : List Rat → Rat) (step : Rat) : Bool :=
